@@ -18,7 +18,7 @@ type c08 struct{}
 func (c08) ID() string    { return "C08" }
 func (c08) Level() string { return "exploration" }
 func (c08) Rule() string {
-	return "shape: in each of the three full corpus documents EVERY scalar leaf in turn is replaced by ${V}, ${UNSET:-literal} and (strings) pre${V}post with the matching environment and the result compared with the literal document; mapping keys containing ${V} stay literal; every document with $ doubled and interpolation on equals the document with interpolation off. types: every typed position of the schema below services/networks/volumes/secrets/configs (boolean, integer, number; read from /repo/schema/compose-spec.json at run time) that admits a string, under three shapes of the user-defined name (plain, x-prefixed, dotted), plus duration and byte-size attributes, x valid texts (incl. YAML-1.1 booleans) x invalid texts: the variable form gives the literal's typed value, an invalid text is an error naming the attribute. distinct = distinct (position, form) pairs"
+	return "shape: in each of the three full corpus documents EVERY scalar leaf in turn is replaced by ${V}, ${UNSET:-literal} and (strings) pre${V}post with the matching environment and the result compared with the literal document; mapping keys containing ${V} stay literal; every document with $ doubled and interpolation on equals the document with interpolation off. types: every typed position of the schema below services/networks/volumes/secrets/configs (boolean, integer, number; read from /repo/schema/compose-spec.json at run time) that admits a string, under three shapes of the user-defined name (plain, x-prefixed, dotted), plus duration and byte-size attributes, x valid texts (incl. YAML-1.1 booleans) x invalid texts: the variable form gives the literal's typed value while the same text at two untyped positions of the document (walked before and after) stays a string, an invalid text is an error naming the attribute. distinct = distinct (position, form) pairs"
 }
 func (c08) Assumptions() []string {
 	return []string{
@@ -282,8 +282,9 @@ func c08types(c *core.Ctx, sch *schemagen.Schema) {
 		for _, v := range valid[ps.kind] {
 			ps, v := ps, v
 			c.Do(fmt.Sprintf("type/%s/valid/%s", pathStr, v[0]), func() core.Outcome {
-				litDoc := strings.Replace(doc, "@@", v[1], 1)
-				varDoc := strings.Replace(doc, "@@", "\"${V}\"", 1)
+				// the same text also at untyped positions: it must stay that text there, whatever the typed position made of it
+				litDoc := strings.ReplaceAll(strings.Replace(doc, "@@", v[1], 1), "@C@", "\""+v[0]+"\"")
+				varDoc := strings.ReplaceAll(strings.Replace(doc, "@@", "\"${V}\"", 1), "@C@", "\"${V}\"")
 				base := &Scn{Files: map[string]string{"s": "x"}}
 				pl, el := c08loadDoc(base, litDoc, nil)
 				if el != nil {
@@ -300,7 +301,7 @@ func c08types(c *core.Ctx, sch *schemagen.Schema) {
 						Msg: fmt.Sprintf("%s: %q through a variable differs from the literal %s: %s", pathStr, v[0], v[1], trunc(d, 400))}}
 				}
 				// the same text written directly as a (quoted) string: the schema admits a string here and the loader converts it
-				strDoc := strings.Replace(doc, "@@", "\""+v[0]+"\"", 1)
+				strDoc := strings.ReplaceAll(strings.Replace(doc, "@@", "\""+v[0]+"\"", 1), "@C@", "\""+v[0]+"\"")
 				pq, eq := c08loadDoc(base, strDoc, nil)
 				if eq != nil {
 					if _, isPanic := eq.(*core.PanicError); isPanic {
@@ -323,11 +324,11 @@ func c08types(c *core.Ctx, sch *schemagen.Schema) {
 				continue // byte sizes: their own grammar, checked separately
 			}
 			c.Do(fmt.Sprintf("type/%s/invalid/%s", pathStr, bad), func() core.Outcome {
-				varDoc := strings.Replace(doc, "@@", "\"${V}\"", 1)
+				varDoc := strings.ReplaceAll(strings.Replace(doc, "@@", "\"${V}\"", 1), "@C@", "c")
 				base := &Scn{Files: map[string]string{"s": "x"}}
 				// the position must be live: the valid literal loads
 				probe := map[string]string{"boolean": "true", "integer": "1", "number": "1"}[ps.kind]
-				if _, el := c08loadDoc(base, strings.Replace(doc, "@@", probe, 1), nil); el != nil {
+				if _, el := c08loadDoc(base, strings.ReplaceAll(strings.Replace(doc, "@@", probe, 1), "@C@", "c"), nil); el != nil {
 					return core.Outcome{Class: "lit-rejected", Trivial: true}
 				}
 				_, ev := c08loadDoc(base, varDoc, map[string]string{"V": bad})
@@ -376,6 +377,8 @@ func c08types(c *core.Ctx, sch *schemagen.Schema) {
 }
 
 // c08docFor builds a minimal document with "@@" at the given schema path.
+// c08docFor builds the witness document with the placeholder @@ at the typed position and the placeholder @C@ at two
+// untyped string positions, one walked before and one after any typed position (a config content, a top-level extension).
 func c08docFor(path []string) (string, bool) {
 	svcName := "s"
 	if path[0] == "services" {
@@ -438,10 +441,19 @@ func c08docFor(path []string) (string, bool) {
 			}
 		}
 	}
+	cfgs, _ := doc["configs"].(map[string]any)
+	if cfgs == nil {
+		cfgs = map[string]any{}
+		doc["configs"] = cfgs
+	}
+	cfgs["aaa"] = map[string]any{"content": "@C@"}
+	doc["x-zzz"] = "@C@"
 	y := mapToYAML(doc)
 	if !strings.Contains(y, "'@@'") && !strings.Contains(y, "\"@@\"") {
 		return "", false
 	}
+	y = strings.ReplaceAll(y, "'@C@'", "@C@")
+	y = strings.ReplaceAll(y, "\"@C@\"", "@C@")
 	y = strings.Replace(y, "'@@'", "@@", 1)
 	y = strings.Replace(y, "\"@@\"", "@@", 1)
 	return y, true
